@@ -205,9 +205,111 @@ def family_f():
     return [("F:" + k.split(":", 1)[1], t) for _, k, t in eqstress.programs() if "omega" in k]
 
 
+KINDS = {
+    # message kind: (type definition, provider body with `print hello` before it acts, consumer body of channel {a})
+    "CLS": ("type T = lin 1", "print hello; close self", "wait {a}; print done; close self"),
+    "SND": ("type T = lin (1 * 1)", "u : lin 1 <- new close self; v : lin 1 <- new close self; print hello; send self<u, v>",
+            "<x, y> <- recv {a}; wait x; wait y; print done; close self"),
+    "SEL": ("type T = lin +{l : 1, r : 1}", "u : lin 1 <- new close self; print hello; self.l<u>",
+            "case {a} (l<x> => wait x; print done; close self | r<x> => wait x; print other; close self)"),
+    "CST": ("type T = lin \\/ lin 1", "u : lin 1 <- new close self; print hello; cast self<u>", "x <- shift {a}; wait x; print done; close self"),
+    "RCV": ("type T = lin (1 -* 1)", "<x, y> <- recv self; print hello; wait x; close y",
+            "u : lin 1 <- new close self; r : lin 1 <- new send {a}<u, self>; wait r; print done; close self"),
+    "BRA": ("type T = lin &{l : 1, r : 1}", "case self (l<y> => print hello; close y | r<y> => print other; close y)",
+            "r : lin 1 <- new {a}.l<self>; wait r; print done; close self"),
+    "SHF": ("type T = lin /\\ lin 1", "y <- shift self; print hello; close y", "r : lin 1 <- new cast {a}<self>; wait r; print done; close self"),
+}
+
+
+def family_g():
+    """every kind of message through a chain of forwards of length 0..3 (top-level forwarders, and forwarders spawned by a
+    function), the provider printing before it acts: a relay that mishandles one kind, or a forward request that makes a
+    process repeat a step, changes the printed multiset in some mode"""
+    out = []
+    for kind, (tdef, prov, cons) in KINDS.items():
+        for n in (0, 1, 2, 3):
+            for how in ("prc", "fun"):
+                if n == 0 and how == "fun":
+                    continue
+                lines = [tdef, "let fw(x : T) : T = fwd self x", "prc[b] : T = " + prov]
+                last = "b"
+                for i in range(n):
+                    nm = "a%d" % i
+                    lines.append("prc[%s] : T = %s" % (nm, "fwd self " + last if how == "prc" else "fw(%s)" % last))
+                    last = nm
+                lines.append("prc[m] : lin 1 = " + cons.replace("{a}", last))
+                out.append(("G:%s:%d:%s" % (kind, n, how), "\n".join(lines) + "\n"))
+    return out
+
+
+FIRST = {
+    # a first step of each kind, in a function body srv(u : lin 1, c : <type>) that is instantiated twice; the code after the
+    # step uses the parameter u (different per instance) and prints
+    "drop": ("aff 1", "drop c;", "x{i} : aff 1 <- new close self;"),
+    "wait": ("lin 1", "wait c;", "x{i} : lin 1 <- new close self;"),
+    "shiftc": ("lin \\/ lin 1", "y <- shift c; wait y;", "z{i} : lin 1 <- new close self; x{i} : lin \\/ lin 1 <- new cast self<z{i}>;"),
+    "recvc": ("lin (1 * 1)", "<p, q> <- recv c; wait p; wait q;", "y{i} : lin 1 <- new close self; z{i} : lin 1 <- new close self; x{i} : lin (1 * 1) <- new send self<y{i}, z{i}>;"),
+    "casec": ("lin +{l : 1}", "case c (l<p> => wait p; wait u; print served; close self)", "z{i} : lin 1 <- new close self; x{i} : lin +{l : 1} <- new self.l<z{i}>;"),
+    "cut": ("lin 1", "k : lin 1 <- new close self; wait k; wait c;", "x{i} : lin 1 <- new close self;"),
+    "print": ("lin 1", "print first; wait c;", "x{i} : lin 1 <- new close self;"),
+}
+
+
+def family_h():
+    """code instantiated twice - a function called twice, and a function body duplicated after a split - whose first step is of
+    each kind and whose continuation mentions a parameter that differs per instance: a copy that shares any part of the body
+    with its original makes the second instance run with the first one's channels"""
+    out = []
+    for kind, (cty, step, mk) in FIRST.items():
+        tail = "" if kind == "casec" else " wait u; print served; close self"
+        srv = "let srv(u : lin 1, c : %s) : lin 1 = %s%s" % (cty, step, tail)
+        body = []
+        for i in (1, 2):
+            body.append("u%d : lin 1 <- new close self; %s r%d <- new srv(u%d, x%d);" % (i, mk.replace("{i}", str(i)), i, i, i))
+        out.append(("H:call2:%s" % kind, srv + "\nprc[m] : lin 1 = " + " ".join(body) + " wait r1; print one; wait r2; print two; close self\n"))
+        # shifts on the provider side, instantiated twice by calls
+    out.append(("H:call2:shiftp", "let srv(u : lin 1) : lin /\\ lin 1 = y <- shift self; wait u; print served; close y\n"
+                "prc[m] : lin 1 = u1 : lin 1 <- new close self; u2 : lin 1 <- new close self; s1 <- new srv(u1); s2 <- new srv(u2); "
+                "r1 : lin 1 <- new cast s1<self>; r2 : lin 1 <- new cast s2<self>; wait r1; print one; wait r2; print two; close self\n"))
+    out.append(("H:call2:recvp", "let srv(u : lin 1) : lin (1 -* 1) = <p, q> <- recv self; wait u; wait p; print served; close q\n"
+                "prc[m] : lin 1 = u1 : lin 1 <- new close self; u2 : lin 1 <- new close self; s1 <- new srv(u1); s2 <- new srv(u2); "
+                "t1 : lin 1 <- new close self; t2 : lin 1 <- new close self; r1 : lin 1 <- new send s1<t1, self>; r2 : lin 1 <- new send s2<t2, self>; "
+                "wait r1; print one; wait r2; print two; close self\n"))
+    # the same first steps in a replicable server that is duplicated by a split while it still holds its argument
+    for kind, step in (("drop", "k : 1 <- new close self; drop k;"), ("shiftc", "z : 1 <- new close self; k : rep \\/ rep 1 <- new cast self<z>; y <- shift k; wait y;"),
+                       ("cut", "k : 1 <- new close self; wait k;"), ("print", "print first;")):
+        out.append(("H:dup:%s" % kind, PRE + "let srv(u : 1) : N = case self (go<s> => %s wait u; print served; close s)\n"
+                    "prc[m] : 1 = y <- new unit(); q <- new srv(y); <q1, q2> <- split q; r1 : 1 <- new q1.go<self>; r2 : 1 <- new q2.go<self>; "
+                    "wait r1; print one; wait r2; print two; close self\n" % step))
+    return out
+
+
+def family_b2():
+    """a receive / case / shift that re-binds its subject at a DIFFERENT type: if a substitution wrongly reaches the re-bound
+    occurrences, the continuation talks to the old channel with the new protocol"""
+    out = []
+    out.append(("B2:recv", "type S = lin +{l : 1}\ntype P = lin (1 * S)\nlet mk() : P = a : lin 1 <- new close self; z : lin 1 <- new close self; b : S <- new self.l<z>; send self<a, b>\n"
+                "let rd(c : P) : lin 1 = <u, c> <- recv c; wait u; case c (l<v> => wait v; print got; close self)\n"
+                "prc[m] : lin 1 = p <- new mk(); r <- new rd(p); wait r; print fin; close self\n"))
+    out.append(("B2:recv-payload", "type S = lin +{l : 1}\ntype P = lin (S * 1)\nlet mk() : P = z : lin 1 <- new close self; a : S <- new self.l<z>; b : lin 1 <- new close self; send self<a, b>\n"
+                "let rd(c : P) : lin 1 = <c, k> <- recv c; wait k; case c (l<v> => wait v; print got; close self)\n"
+                "prc[m] : lin 1 = p <- new mk(); r <- new rd(p); wait r; print fin; close self\n"))
+    out.append(("B2:case", "type P = lin (1 * 1)\ntype S = lin +{l : P}\nlet mk() : S = a : lin 1 <- new close self; b : lin 1 <- new close self; p : P <- new send self<a, b>; self.l<p>\n"
+                "let rd(c : S) : lin 1 = case c (l<c> => <u, v> <- recv c; wait u; wait v; print got; close self)\n"
+                "prc[m] : lin 1 = p <- new mk(); r <- new rd(p); wait r; print fin; close self\n"))
+    out.append(("B2:shift", "type P = lin (1 * 1)\ntype D = lin \\/ lin P\nlet mk() : D = a : lin 1 <- new close self; b : lin 1 <- new close self; p : P <- new send self<a, b>; cast self<p>\n"
+                "let rd(c : D) : lin 1 = c <- shift c; <u, v> <- recv c; wait u; wait v; print got; close self\n"
+                "prc[m] : lin 1 = p <- new mk(); r <- new rd(p); wait r; print fin; close self\n"))
+    # the demo shape: bound, handed to a spawned call that hands it back, re-bound by the receive
+    out.append(("B2:handback", "type S = lin +{l : 1}\ntype P = lin (1 * S)\nlet f(x : lin 1) : P = z : lin 1 <- new close self; b : S <- new self.l<z>; send self<x, b>\n"
+                "let g(x : lin 1) : lin 1 = y <- new f(x); <k, x> <- recv y; wait k; case x (l<v> => wait v; print ok; close self)\n"
+                "prc[m] : lin 1 = a : lin 1 <- new close self; r <- new g(a); wait r; print fin; close self\n"))
+    return out
+
+
 def programs():
     seen, out = set(), []
-    for fam in (family_a, family_b, family_c, family_d, family_e, family_f):
+    for fam in (family_a, family_b, family_b2, family_c, family_d, family_e, family_f, family_g, family_h):
         for i, t in fam():
             if t not in seen:
                 seen.add(t)
